@@ -224,7 +224,8 @@ type File struct {
 }
 
 type Program struct {
-	Files []*File // Files[0] is the main file
+	Files  []*File // Files[0] is the main file
+	Layout string  // "" = house style; "tight" = every blank the grammar does not need removed (see tightLayout)
 }
 
 func SingleFile(stmts []Stmt) *Program {
